@@ -78,7 +78,7 @@ def main(tier):
             variants = ["plain"]
             if not r["o"]["inv"]:
                 variants += ["only", "column"]
-                if i % 4 == 0:
+                if i % 4 == 0 and "13" not in json.dumps(r["u"]):     # a literal CR is rejected under --crlf
                     variants += ["crlf"]
             else:
                 variants += ["ctx"]
